@@ -333,6 +333,13 @@ def mc_cli_cfg(c, emit=True):
                 "ACTION_CONSTRAINT Emit\n" if emit else ""))
 
 
+def mc_cli_only(ctx, consts, workers=8):
+    """Design-level check only (no path emission): for instances too large to replay"""
+    res = vlib.tlc_mc(ctx.workdir, "MC_Cli", mc_cli_cfg(consts, emit=False), workers=workers, timeout=2400, want_T=False)
+    res["constants"] = consts
+    ctx.add_mc(res)
+
+
 def mc_cli_scripts(ctx, consts, rng, limit=None, sid0=1000000, workers=6):
     """Model-check MC_Cli for `consts`; return session scripts, one per explored transition
     (a shortest path to its source state followed by the event)."""
@@ -579,7 +586,7 @@ def c05(ctx):
     # the same through the real Cli: every transition of the composite model, and random sessions
     q = ctx.tier == "quick"
     scripts = []
-    for consts in ([dict(SMALL, WithApi=False)] if q else [dict(MED, WithApi=False), dict(BIG, WithApi=False)]):
+    for consts in ([dict(SMALL, WithApi=False)] if q else [dict(MED, WithApi=False)]):
         scripts += mc_cli_scripts(ctx, consts, rng, limit=1500 if q else 100000, sid0=len(scripts) + 1)
     prof = {"cmd": [0, 1, 2, 3, 4, 5, 6, 7, 8, 16, 64], "hcap": [0, 4, 16], "sets": ALLSETS, "steps": (10, 80),
             "alphabet": ALLCH + sessions.W1, "w": {"char": 40, "bs": 14, "left": 14, "right": 10, "up": 3, "down": 2, "tab": 3, "enter": 3, "word": 3}}
@@ -633,7 +640,7 @@ def c10(ctx):
     # through the real Cli: submissions and Up/Down at every point
     q = ctx.tier == "quick"
     scripts = []
-    for consts in ([dict(SMALL, WithApi=False)] if q else [dict(MED, WithApi=False), dict(BIG, WithApi=False)]):
+    for consts in ([dict(SMALL, WithApi=False)] if q else [dict(MED, WithApi=False)]):
         scripts += mc_cli_scripts(ctx, consts, rng, limit=1500 if q else 100000, sid0=len(scripts) + 1)
     prof = {"cmd": [1, 2, 3, 5, 8, 16, 64], "hcap": [0, 1, 2, 3, 4, 5, 7, 9, 16, 33, 64], "sets": ["raw", "leds"], "steps": (20, 120),
             "alphabet": [0x61, 0x62, 0x63, 0xE9, 0x4E2D, 0x1F600], "enter_forms": ENTER_FORMS,
@@ -942,6 +949,9 @@ def cli_property(ctx, focus, mc_consts, mc_limit, profiles, rule, shards=12, ext
     scripts = []
     sid = 1
     for consts in mc_consts:
+        if consts.get("NoEmit"):
+            mc_cli_only(ctx, {k: v for k, v in consts.items() if k != "NoEmit"})
+            continue
         sc = mc_cli_scripts(ctx, consts, rng, limit=mc_limit, sid0=sid)
         scripts += sc
         sid += len(sc)
@@ -964,7 +974,7 @@ def c01(ctx):
             "w": {"word": 12, "enter": 10, "quote": 4, "dash": 4, "space": 8}}
     tight = dict(prof, cmd=[0, 1, 2, 3], hcap=[0, 1, 2, 3], steps=(10, 40))
     return cli_property(ctx, "C01",
-                        [dict(SMALL, WithApi=False)] if q else [dict(MED, WithApi=False), dict(BIG, WithApi=False)],
+                        [dict(SMALL, WithApi=False)] if q else [dict(MED, WithApi=False), dict(BIG, WithApi=False, NoEmit=True)],
                         2000 if q else 150000,
                         [(700 if q else 20000, prof), (300 if q else 10000, tight)],
                         "every transition (quick: a seeded sample) of the closed MC_Cli graphs replayed on the real Cli through its "
@@ -1128,7 +1138,7 @@ def c11(ctx):
             "alphabet": [0x61, 0x67, 0x73, 0x68, 0x65, 0x436, 0x4E2D, 0x1F600, 0x78],
             "w": {"char": 10, "bs": 6, "left": 14, "right": 8, "up": 2, "down": 1, "tab": 22, "enter": 4, "word": 30, "space": 10}}
     return cli_property(ctx, "C11",
-                        [dict(SMALL, WithApi=False)] if q else [dict(MED, WithApi=False), dict(BIG, WithApi=False)],
+                        [dict(SMALL, WithApi=False)] if q else [dict(MED, WithApi=False)],
                         1500 if q else 100000,
                         [(1500 if q else 40000, prof)], extra_scripts=c11_systematic(ctx),
                         rule="per name set every line blanks* prefix blanks* for every prefix of every name x every cursor position x "
@@ -1306,6 +1316,24 @@ def c16(ctx):
         sc["sid"] = 200001 + i
         sc["steps"] = [st for st in sc["steps"]]
     scripts_b += T
+    # gated keys next to the decoder's stateful bytes: every sequence of <= 3 (thorough 4) units over
+    # {CR, LF, Tab, ESC, '[', 'C', Up, Down, 'a', BS}: a disabled facility must not disturb decoding either
+    crit = [[13], [10], [9], [27], [91], [67], [27, 91, 65], [27, 91, 66], [97], [8]]
+    seqs = [[]]
+    fr = [[]]
+    for _ in range(3 if q else 4):
+        fr = [x + [u] for x in fr for u in range(len(crit))]
+        seqs += fr
+    U = []
+    for i, sq in enumerate(seqs):
+        bs = [97]
+        for u in sq:
+            bs += crit[u]
+        bs += [98, 13]
+        U.append({"sid": 400001 + i, "cfg": {"cmd": 8, "hcap": 8, "set": "tiny", "prompt": 0},
+                  "steps": [{"ev": "byte", "b": b} for b in bs]})
+    scripts_b += U
+    ctx.extra["critical_unit_sequences"] = len(U)
     ref = None
     full = tuple(vlib.ALL_FEATURES)
     order = [full] + [fs for fs in builds if fs != full]
